@@ -36,7 +36,7 @@ func tokString(ts []tok) string {
 var primKinds = map[string]string{
 	"EncodeFlag": "flag", "DecodeFlag": "flag",
 	"EncodeUvarint64": "U", "DecodeUvarint64": "U",
-	"EncodeVarint64": "V", "DecodeVarint64": "V", "DecodeVarint32": "V",
+	"EncodeVarint64": "V", "DecodeVarint64": "V", "DecodeVarint32": "V32", // the 32-bit reader refuses values the 64-bit writer can emit: a different token
 	"EncodeVarfloat64": "F", "DecodeVarfloat64": "F",
 	"EncodeFloat64LE": "L", "DecodeFloat64LE": "L",
 }
